@@ -8,6 +8,7 @@ from absint.lin import Lin
 from absint.values import *
 from absint.interp import Interp, FailClosed, Frame, State, ISIZE_MAX, event
 from absint.models import M
+from absint.models_std2 import tag_seqs
 from rules.c01 import INVARIANTS
 
 A = "stun_proto::agent::"
@@ -36,12 +37,7 @@ class Run:
         self.self_cell = a1.cell if isinstance(a1, Ref) and not a1.path else None
         if self.self_cell:
             sv = st.cells[self.self_cell]
-            if isinstance(sv, Struct):
-                # every byte container of the receiver gets a content identity, so that copies of it are recognised
-                for i, fv in list(sv.f.items()):
-                    if isinstance(fv, Seq) and fv.view is None and fv.src is None:
-                        sv = sv.with_field(i, Seq(fv.len, fv.elem, fv.items, None, ("self.%s" % i, Lin.const(0))))
-                st.cells[self.self_cell] = sv
+            st.cells[self.self_cell] = tag_seqs(sv, "self")
             st.cells["ghost:self0"] = st.cells[self.self_cell]
             it.snapshots["ghost:self0"] = self.self_cell
         if setup:
@@ -66,6 +62,18 @@ class Run:
 
     def self_before(self, st):
         return st.cells.get("ghost:self0")
+
+
+def pin_variant(prog, st, cell, adt, field, vname):
+    """restrict an enum-typed field of the struct in `cell` to one variant (the analysis is repeated per variant, so that a
+    copy of the field is told apart from a constant)"""
+    sv = st.cells.get(cell)
+    i = field_index(prog, adt, field)
+    ev = sv.get(i) if isinstance(sv, Struct) else None
+    if isinstance(ev, Enum):
+        a = prog.adts[ev.adt]
+        vi = [v["name"] for v in a["variants"]].index(vname)
+        st.cells[cell] = sv.with_field(i, ev.only(vi))
 
 
 def field_index(prog, adt, name):
@@ -114,12 +122,19 @@ def same_value(st, a, b):
     if isinstance(a, Num) and isinstance(b, Num):
         return st.sys.entails_eq(a.e - b.e)
     if isinstance(a, Seq) and isinstance(b, Seq):
-        return st.sys.entails_eq(a.len - b.len) and (a.content() == b.content() or a is b)
+        # equal length and the same identified content (unknown content is equal only to itself)
+        return st.sys.entails_eq(a.len - b.len) and a.content() is not None and a.content() == b.content()
     if isinstance(a, Enum) and isinstance(b, Enum):
         return a.adt == b.adt and set(a.v) == set(b.v) and all(same_value(st, a.v[k], b.v[k]) for k in a.v) and (len(a.v) == 1 or a == b)
     if isinstance(a, Struct) and isinstance(b, Struct):
         return set(a.f) == set(b.f) and all(same_value(st, a.f[k], b.f[k]) for k in a.f)
     return a == b
+
+
+def unchanged(st, a, b):
+    """a field still holds its entry value: the same abstract value (in-place mutation of container contents is a write
+    access, which the who-may-access rules decide)"""
+    return same_value(st, a, b) or a == b
 
 
 class Fields:
@@ -139,17 +154,21 @@ def pc_decisions(run, st):
 def req_poll(prog, chk, rule="request-poll-table"):
     key = REQ + "::poll"
 
-    def setup(run, st):
-        run.it.snapshots["ghost:self0"] = run.self_cell
-    r = Run(prog, key, setup=setup)
-    if r.error or not r.results:
-        chk.fail(rule, "analysis", detail=r.error or "no return state")
-        return
     n = 0
     body = prog.bodies[key]
     now_l = next(i for i in range(1, body.arg_count + 1) if body.locals[i]["name"] == "now")
     outcomes = set()
-    for st, ret in r.results:
+    results = []
+    for tv in ("Udp", "Tcp"):
+        def setup(run, st, tv=tv):
+            pin_variant(prog, st, run.self_cell, REQ, "transport", tv)
+            st.cells["ghost:self0"] = st.cells[run.self_cell]
+        r = Run(prog, key, setup=setup)
+        if r.error or not r.results:
+            chk.fail(rule, "analysis", detail=r.error or "no return state")
+            return
+        results += [(r, st, ret) for st, ret in r.results]
+    for r, st, ret in results:
         n += 1
         s0 = Fields(prog, REQ, r.self_before(st))
         s1 = Fields(prog, REQ, r.self_now(st))
@@ -186,14 +205,14 @@ def req_poll(prog, chk, rule="request-poll-table"):
             D = wait
             interval_ok = deadline_ok(st, dl, last, s0, X)
         row = "RC=%s,LS=%s,X=%s,D=%s,SC=%s" % tuple({True: 1, False: 0, None: "*"}[x] for x in (RC, LS, X, D, SC))
-        unchanged = lambda f: same_value(st, s0[f], s1[f])
-        frozen = [f for f in s0.names if f not in ("timeout_i", "last_send_time") and not unchanged(f)]
+        unch = lambda f: unchanged(st, s0[f], s1[f])
+        frozen = [f for f in s0.names if f not in ("timeout_i", "last_send_time") and not unch(f)]
         chk.ob(rule, row + "|other-fields-unchanged", not frozen, body.loc(), detail="poll changes %s" % frozen, how="E2 return state: entry snapshot vs final fields")
         inc = None
         if isinstance(s1["timeout_i"], Num) and isinstance(ti, Num):
             inc = st.sys.const_value(s1["timeout_i"].e - ti.e)
         sent_now = variant_of(prog, s1["last_send_time"]) == "Some" and isinstance(now, V) and same_value(st, s1["last_send_time"].v[1].get(0), now)
-        last_same = unchanged("last_send_time")
+        last_same = unch("last_send_time")
         # ---- the specification, row by row; a fact the path did not decide counts as both
         ok, why = True, ""
         if out == "SendData":
@@ -221,7 +240,7 @@ def req_poll(prog, chk, rule="request-poll-table"):
             ok, why = False, "unknown outcome"
         chk.ob(rule, row + "|" + str(out), ok, body.loc(),
                detail="%s; got inc=%s sent_now=%s last_same=%s interval_ok=%s pc=%r" % (why, inc, sent_now, last_same, interval_ok, r.pc(st)), how=why)
-    chk.floor(rule + "-rows", n, 6)
+    chk.floor(rule + "-rows", n, 12)
     chk.ob(rule, "all four outcomes are produced", outcomes >= {"SendData", "WaitUntil", "TimedOut", "Cancelled"}, body.loc(), detail=repr(outcomes))
 
 
@@ -303,6 +322,7 @@ def model_has_attribute(c):
         return [(c.st, c.top_ret())]
     v = Lin.var("has_attr_%d" % cv)
     c.st.sys.add_range(v, 0, 1)
+    c.st.cells["ghost:q:has_attr_%d" % cv] = Num(v)
     return [(c.st, Num(v))]
 
 
@@ -371,3 +391,732 @@ def req_new(prog, chk, rule, aspects):
     if "schedule" in aspects:
         chk.ob(rule, "new|both transports analysed", seen_tr >= {"Tcp", "Udp"}, body.loc(), detail=repr(seen_tr))
         chk.ob(rule, "TCP time-out equals the sum of the UDP schedule", TCP_LAST == sum(UDP_DEFAULT) + UDP_LAST, how="%d = %d + %d" % (TCP_LAST, sum(UDP_DEFAULT), UDP_LAST))
+
+
+# ------------------------------------------------------------------------------------------------
+# StunAgent::handle_stun  (DESIGN appendix A.1)
+
+AGENT = A + "StunAgent"
+MSG = "stun_types::message::Message::<'a>::"
+
+
+def ref_id(v):
+    """identity of the storage a reference points to"""
+    if isinstance(v, Ref):
+        return "%s%s" % (v.cell.rsplit(":", 1)[-1] if "*" in v.cell else v.cell, "".join(".%s%s" % (p[0] if p[0] != "f" else "", p[1]) for p in v.path))
+    return None
+
+
+def msg_models():
+    """summaries of the Message getters used by the agent: one unknown per (message, question); their faithfulness to the
+    bytes is C02's faithful-exposure clause, the verdict of validate_integrity is C04"""
+    def tid(c):
+        v = Lin.var("tid(%s)" % ref_id(c.args[0]))
+        c.st.sys.add_range(v, 0, (1 << 128) - 1)
+        c.st.cells["ghost:q:" + next(iter(v.t))] = Num(v)
+        return [(c.st, Struct({0: Num(v)}))]
+
+    def is_response(c):
+        v = Lin.var("is_response(%s)" % ref_id(c.args[0]))
+        c.st.sys.add_range(v, 0, 1)
+        c.st.cells["ghost:q:" + next(iter(v.t))] = Num(v)      # keeps the answer among the facts of the return state
+        return [(c.st, Num(v))]
+
+    def validate(c):
+        s_ok, s_err = c.st, c.st.copy()
+        event(s_ok, "validate", ref_id(c.args[0]), ref_id(c.args[1]), True)
+        event(s_err, "validate", ref_id(c.args[0]), ref_id(c.args[1]), False)
+        rt = c.it.top_of(s_err, c.fr.body, c.term["dest"]["ty"], hint="verdict")
+        err = rt.only(1) if isinstance(rt, Enum) and 1 in rt.v else Enum("std::result::Result", {1: Struct({0: TOP})})
+        okv = rt.only(0) if isinstance(rt, Enum) and 0 in rt.v else Enum("std::result::Result", {0: Struct({0: TOP})})
+        return [(s_ok, okv), (s_err, err)]
+    return {MSG + "transaction_id": tid, MSG + "is_response": is_response, MSG + "validate_integrity": validate}
+
+
+def agent_field_of(prog, mid):
+    """'a1*self.5' -> 'outstanding_requests'"""
+    m = re.match(r"^a1\*self\.(\d+)$", mid if isinstance(mid, str) else "")
+    if not m:
+        return None
+    fs = prog.adts[AGENT]["variants"][0]["fields"]
+    i = int(m.group(1))
+    return fs[i]["name"] if i < len(fs) else None
+
+
+def handle_stun(prog, chk, rule="handle_stun-table"):
+    key = AGENT + "::handle_stun"
+    body = prog.bodies[key]
+    arg = {body.locals[i]["name"]: i for i in range(1, body.arg_count + 1)}
+
+    def setup(run, st):
+        mc = run.it.cell_of(run.fr, arg["msg"])
+        mv = st.cells.get(mc)
+        if isinstance(mv, Struct):
+            st.cells[mc] = Struct({i: (Seq(x.len, x.elem, x.items, None, ("msg", Lin.const(0))) if isinstance(x, Seq) else x) for i, x in mv.f.items()}, mv.tag)
+        st.cells["ghost:msg0"] = st.cells[mc]
+    r = Run(prog, key, local_models=msg_models(), setup=setup)
+    if r.error or not r.results:
+        chk.fail(rule, "analysis", detail=r.error or "no return state")
+        return
+    msg_id = "E[handle_stun]:_%d" % arg["msg"]
+    tidk = "K[tid(%s)]" % msg_id
+    isr = Lin.var("is_response(%s)" % msg_id)
+    fromk = None
+    n = 0
+    outcomes = set()
+    for st, ret in r.results:
+        n += 1
+        s0 = Fields(prog, AGENT, r.self_before(st))
+        s1 = Fields(prog, AGENT, r.self_now(st))
+        tr = r.trace(st)
+        sy = st.sys.copy()
+        sy.add_range(isr, 0, 1)
+        R = True if sy.entails_ge(isr - 1) else False if sy.entails_ge(-isr) else None
+        req_ev = [e for e in tr if agent_field_of(prog, e[1]) == "outstanding_requests"]
+        peer_ev = [e for e in tr if agent_field_of(prog, e[1]) == "validated_peers"]
+        other_ev = [e for e in tr if e[0] != "validate" and e not in req_ev and e not in peer_ev]
+        foreign = [e for e in req_ev if e[2] != tidk]
+        T = next((e[3] for e in req_ev if e[0] in ("lookup",) and e[2] == tidk), None)
+        mid = next((e[1] for e in req_ev), None)
+        taken = st.cells.get("ghost:taken:%s:%s" % (mid, tidk)) if mid else None
+        H = bool_of(st, Fields(prog, REQ, taken)["request_had_credentials"]) if isinstance(taken, Struct) else None
+        C = {"Some": True, "None": False}.get(variant_of(prog, s0["remote_credentials"]))
+        vals = [e for e in tr if e[0] == "validate"]
+        V = vals[0][3] if len(vals) == 1 else None
+        out = variant_of(prog, ret)
+        outcomes.add(out)
+        payload = ret.v[next(iter(ret.v))].get(0) if isinstance(ret, Enum) and len(ret.v) == 1 and ret.v[next(iter(ret.v))].f else None
+        # what happened to the request and to the peer set, as net effects
+        gm = st.cells.get("ghost:map:%s" % mid) if mid else None
+        present_now = None
+        if isinstance(gm, Struct) and isinstance(gm.get(tidk), Num):
+            present_now = bool(gm.get(tidk).e.c)
+        stored = st.cells.get("ghost:mapval:%s:%s" % (mid, tidk)) if mid else None
+        mutated = [e for e in req_ev if e[0] in ("insert", "remove", "shrink")]
+        reinserted_same = present_now is True and T is True and isinstance(taken, V.__class__.__mro__[-2]) if False else None
+        reinserted_same = bool(present_now is True and T is True and taken is not None and stored is not None and same_value(st, stored, taken))
+        removed = bool(T is True and present_now is False)
+        frm = st.cells.get(r.it.cell_of(r.fr, arg["from"]))
+        fk = "K[%r]" % (frm,)
+        pmid = next((e[1] for e in peer_ev), None)
+        pm = st.cells.get("ghost:map:%s" % pmid) if pmid else None
+        peer_valid = isinstance(pm, Struct) and isinstance(pm.get(fk), Num) and pm.get(fk).e.c == 1
+        peer_touched = [e for e in peer_ev if e[0] not in ("lookup",)]
+        peer_foreign = [e for e in peer_ev if e[2] != fk]
+        row = "R=%s,T=%s,H=%s,C=%s,V=%s" % tuple({True: 1, False: 0, None: "*"}[x] for x in (R, T, H, C, V))
+        # ---- specification over every completion of the facts this path left open
+        import itertools
+        facts = [R, T, H, C, V]
+        problems = []
+        for comp in itertools.product(*[[x] if x is not None else [False, True] for x in facts]):
+            r_, t_, h_, c_, v_ = comp
+            if not r_:
+                exp = ("IncomingStun", "untouched", True)
+            elif not t_:
+                exp = ("Drop", "absent", False)
+            elif not h_:
+                exp = ("StunResponse", "removed", True)
+            elif not c_:
+                exp = ("Drop", "kept", False)
+            elif v_:
+                exp = ("StunResponse", "removed", True)
+            else:
+                exp = ("Drop", "kept", False)
+            got_req = ("untouched" if not mutated else "removed" if removed and [e[0] for e in mutated] == ["remove"] else
+                       "kept" if reinserted_same else "absent" if (T is False and present_now is False and not [e for e in mutated if e[0] != "remove"]) else "other")
+            if exp[1] == "absent" and got_req == "untouched" and T is False:
+                got_req = "absent"
+            if out != exp[0]:
+                problems.append("returns %s where %s is required" % (out, exp[0]))
+            if got_req != exp[1]:
+                problems.append("outstanding request is %s where %s is required (events %r)" % (got_req, exp[1], [e[:3] for e in req_ev]))
+            if exp[2] and not peer_valid:
+                problems.append("the sender is not recorded as a validated peer")
+            if not exp[2] and peer_touched:
+                problems.append("the sender is recorded as a validated peer although nothing was accepted")
+            if r_ and t_ and h_ and c_ and V is None:
+                problems.append("a sealed request's response is handled without exactly one integrity validation")
+        if V is not None:
+            e = vals[0]
+            cred_ok = e[1] == msg_id and re.match(r"^a1\*self\.%d\.v1\.0$" % s0.names.index("remote_credentials"), e[2] or "") is not None
+            if not cred_ok:
+                problems.append("validate_integrity is applied to (%s, %s), not (msg, self.remote_credentials)" % (e[1], e[2]))
+        if len(vals) > 1:
+            problems.append("more than one validation")
+        if out in ("StunResponse", "IncomingStun"):
+            m0 = st.cells.get("ghost:msg0")
+            if payload is None or not same_value(st, payload, m0):
+                problems.append("the message handed back (%r) is not the one received (%r)" % (payload, m0))
+        if foreign or peer_foreign or other_ev:
+            problems.append("touches other keys or containers: %r" % ([e[:3] for e in foreign + peer_foreign + other_ev],))
+        changed = [f for f in s0.names if f not in ("outstanding_requests", "validated_peers") and not unchanged(st, s0[f], s1[f])]
+        if changed:
+            problems.append("changes agent fields %s" % changed)
+        chk.ob(rule, row + "|" + str(out), not problems, body.loc(), detail="; ".join(sorted(set(problems))),
+               how="E2 return state: facts decided on the path, net container effects, returned value")
+    chk.floor(rule + "-rows", n, 6)
+    chk.ob(rule, "all three outcomes are produced", outcomes >= {"Drop", "StunResponse", "IncomingStun"}, body.loc(), detail=repr(outcomes))
+
+
+# ------------------------------------------------------------------------------------------------
+# StunAgent::send  (DESIGN appendix A.2)
+
+def model_has_class(c):
+    cl = c.deref(c.args[1])
+    nm = variant_of(c.it.prog, cl) if isinstance(cl, Enum) else None
+    if nm is None:
+        return [(c.st, c.top_ret())]
+    v = Lin.var("has_class_%s" % nm)
+    c.st.sys.add_range(v, 0, 1)
+    c.st.cells["ghost:q:has_class_%s" % nm] = Num(v)
+    return [(c.st, Num(v))]
+
+
+def send(prog, chk, rule="send-table"):
+    key = AGENT + "::send"
+    body = prog.bodies[key]
+    arg = {body.locals[i]["name"]: i for i in range(1, body.arg_count + 1)}
+    results = []
+    for tv in ("Udp", "Tcp"):
+        def setup(run, st, tv=tv):
+            pin_variant(prog, st, run.self_cell, AGENT, "transport", tv)
+            st.cells["ghost:self0"] = st.cells[run.self_cell]
+        r = Run(prog, key, setup=setup, local_models={MB + "build": model_build, MB + "has_attribute": model_has_attribute, MB + "has_class": model_has_class})
+        if r.error or not r.results:
+            chk.fail(rule, "analysis", detail=r.error or "no return state")
+            return
+        results += [(r, st, ret) for st, ret in r.results]
+    isreq = Lin.var("has_class_Request")
+    n = 0
+    rows = set()
+    for r, st, ret in results:
+        n += 1
+        s0 = Fields(prog, AGENT, r.self_before(st))
+        s1 = Fields(prog, AGENT, r.self_now(st))
+        tr = r.trace(st)
+        sy = st.sys.copy()
+        sy.add_range(isreq, 0, 1)
+        Q = True if sy.entails_ge(isreq - 1) else False if sy.entails_ge(-isreq) else None
+        asked_other = [c_ for c_ in st.cells if c_.startswith("ghost:q:has_class_") and c_ != "ghost:q:has_class_Request"]
+        msg0 = None
+        req_ev = [e for e in tr if agent_field_of(prog, e[1]) == "outstanding_requests"]
+        other_ev = [e for e in tr if e not in req_ev]
+        keys = {e[2] for e in req_ev}
+        K = next((e[3] for e in req_ev if e[0] == "lookup"), None)
+        inserts = [e for e in req_ev if e[0] == "insert"]
+        mutated = [e for e in req_ev if e[0] not in ("lookup",)]
+        res = variant_of(prog, ret)
+        payload = ret.v[next(iter(ret.v))].get(0) if isinstance(ret, Enum) and len(ret.v) == 1 else None
+        to = st.cells.get(r.it.cell_of(r.fr, arg["to"]))
+        now = st.cells.get(r.it.cell_of(r.fr, arg["now"]))
+        row = "Q=%s,K=%s" % tuple({True: 1, False: 0, None: "*"}[x] for x in (Q, K))
+        rows.add((Q, K))
+        problems = []
+
+        def transmit_problems(tx):
+            if not isinstance(tx, Struct):
+                return ["the result carries no Transmit"]
+            t = Fields(prog, A + "Transmit", tx)
+            d = t["data"]
+            if isinstance(d, Enum) and len(d.v) == 1:
+                d = d.v[next(iter(d.v))].get(0)
+            while isinstance(d, Struct) and len(d.f) == 1:
+                d = d.get(0)
+            out = []
+            if not (isinstance(d, Seq) and d.content() == ("build(arg)", Lin.const(0))):
+                out.append("Transmit.data %r is not msg.build()" % (d,))
+            if not same_value(st, t["transport"], s1["transport"]) :
+                out.append("Transmit.transport %r is not the agent's %r" % (t["transport"], s1["transport"]))
+            if not same_value(st, t["from"], s0["local_addr"]):
+                out.append("Transmit.from %r is not the agent's local address" % (t["from"],))
+            if not same_value(st, t["to"], to):
+                out.append("Transmit.to %r is not the destination argument" % (t["to"],))
+            return out
+        for q_ in ([Q] if Q is not None else [False, True]):
+            for k_ in ([K] if K is not None else [False, True]):
+                if not q_:
+                    if res != "Ok":
+                        problems.append("a non-request is refused")
+                    else:
+                        problems += transmit_problems(payload)
+                    if mutated:
+                        problems.append("a non-request changes the transaction map: %r" % ([e[:3] for e in mutated],))
+                elif k_:
+                    ev = payload if res == "Err" else None
+                    if res != "Err" or variant_of(prog, ev) != "AlreadyInProgress":
+                        problems.append("a request whose transaction id is outstanding is not refused with AlreadyInProgress (%s %r)" % (res, ev))
+                    if mutated:
+                        problems.append("the refused send changes the transaction map: %r" % ([e[:3] for e in mutated],))
+                else:
+                    if K is None:
+                        problems.append("a request is sent without asking whether its transaction id is outstanding")
+                    if res != "Ok":
+                        problems.append("a fresh request is refused (%r)" % (payload,))
+                    else:
+                        problems += transmit_problems(payload)
+                    if len(inserts) != 1 or len(mutated) != 1:
+                        problems.append("a fresh request is not recorded exactly once: %r" % ([e[:3] for e in mutated],))
+                    else:
+                        s = Fields(prog, REQ, inserts[0][3])
+                        if not (isinstance(s["bytes"], Seq) and s["bytes"].content() == ("build(arg)", Lin.const(0))):
+                            problems.append("recorded bytes %r are not msg.build()" % (s["bytes"],))
+                        if not same_value(st, s["transport"], s1["transport"]):
+                            problems.append("recorded transport differs from the agent's")
+                        if not same_value(st, s["from"], s0["local_addr"]) or not same_value(st, s["to"], to):
+                            problems.append("recorded addresses (%r, %r) are not (local address, destination)" % (s["from"], s["to"]))
+                        if variant_of(prog, s["last_send_time"]) != "Some" or not same_value(st, s["last_send_time"].v[1].get(0), now):
+                            problems.append("recorded last_send_time %r is not Some(now)" % (s["last_send_time"],))
+                        ti = s["timeout_i"]
+                        if not (isinstance(ti, Num) and st.sys.const_value(ti.e) == 0):
+                            problems.append("recorded timeout_i %r is not 0" % (ti,))
+                        if bool_of(st, s["recv_cancelled"]) is not False or bool_of(st, s["send_cancelled"]) is not False:
+                            problems.append("recorded request starts cancelled")
+                        tid = s["transaction_id"]
+                        kr = "K[%r]" % (st.sys.reduce(tid.get(0).e),) if isinstance(tid, Struct) and isinstance(tid.get(0), Num) else None
+                        if kr != inserts[0][2]:
+                            problems.append("recorded under key %s but the state carries transaction id %s" % (inserts[0][2], kr))
+        if len(keys) > 1:
+            problems.append("more than one key of the transaction map is involved: %r" % (sorted(keys),))
+        if other_ev:
+            problems.append("touches other containers: %r" % ([e[:3] for e in other_ev],))
+        if asked_other:
+            problems.append("the decision depends on a class other than Request: %r" % (asked_other,))
+        changed = [f for f in s0.names if f not in ("outstanding_requests",) and not unchanged(st, s0[f], s1[f])]
+        if changed:
+            problems.append("changes agent fields %s" % changed)
+        chk.ob(rule, row + "|" + str(res), not problems, body.loc(), detail="; ".join(sorted(set(problems))),
+               how="E2 return state (through StunRequestState::new and ::poll): decided facts, net map effect, returned Transmit")
+    chk.floor(rule + "-rows", n, 6)
+    chk.ob(rule, "the three cases are distinguished", {(False, None), (True, True), (True, False)} <= rows, body.loc(), detail=repr(sorted(rows, key=repr)))
+
+
+# ------------------------------------------------------------------------------------------------
+# StunAgent::poll  (DESIGN appendix A.3): what the agent does with each per-request outcome
+
+def event_once(st, *e):
+    t = st.cells.get("ghost:trace")
+    if isinstance(t, Trace) and (not t.ev or t.ev[-1] != tuple(e)):
+        st.cells["ghost:trace"] = t.add(tuple(e))
+
+
+def instant_le(st, pc, a, b):
+    """do the comparisons decided on a path show a <= b (a, b uninterpreted instants)"""
+    if same_value(st, a, b):
+        return True
+    for e in pc:
+        (op, x, y), truth = e[0][0], e[1]
+        fwd = same_value(st, x, a) and same_value(st, y, b)
+        bwd = same_value(st, x, b) and same_value(st, y, a)
+        if fwd and ((op in ("le", "lt") and truth) or (op in ("gt",) and not truth)):
+            return True           # a <= b, a < b, not (a > b)
+        if fwd and op == "ge" and not truth:
+            return True           # not (a >= b)  =>  a < b
+        if bwd and ((op in ("ge", "gt") and truth) or (op in ("lt",) and not truth)):
+            return True           # b >= a, b > a, not (b < a)
+        if bwd and op == "le" and not truth:
+            return True           # not (b <= a)  =>  a < b
+    return False
+
+
+def agent_poll(prog, chk, rule="agent-poll-table"):
+    key = AGENT + "::poll"
+    body = prog.bodies[key]
+    arg = {body.locals[i]["name"]: i for i in range(1, body.arg_count + 1)}
+
+    def pre(it, st, fr, args):
+        st.cells["ghost:polled"] = args[0] if args else TOP
+
+    def post(it, st, fr, ret):
+        who = st.cells.get("ghost:polled")
+        out = variant_of(prog, ret)
+        payload = ret.v[next(iter(ret.v))].get(0) if isinstance(ret, Enum) and len(ret.v) == 1 and ret.v[next(iter(ret.v))].f else None
+        tid = None
+        if isinstance(who, Ref):
+            sv = it.load(st, who.cell, who.path)
+            tid = Fields(prog, REQ, sv)["transaction_id"]
+        event_once(st, "reqpoll", out, ref_id(who), payload, tid)
+    results = []
+    for mode in ("any number of requests (one summary request)", "two requests"):
+        def setup(run, st, mode=mode):
+            if mode == "two requests":
+                run.it.map_elems = 2
+                run.it.max_parts = 4000
+        r = Run(prog, key, pre_hooks={REQ + "::poll": pre}, hooks={REQ + "::poll": post}, setup=setup)
+        if r.error or not r.results:
+            chk.fail(rule, "analysis|" + mode, detail=r.error or "no return state")
+            return
+        results += [(r, mode, st, ret) for st, ret in r.results]
+    n = skipped = n_min = 0
+    outcomes = set()
+    for r, mode, st, ret in results:
+        tr = [e for e in r.trace(st) if e[0] != "next"]
+        s0 = Fields(prog, AGENT, r.self_before(st))
+        s1 = Fields(prog, AGENT, r.self_now(st))
+        polls = [e for e in tr if e[0] == "reqpoll"]
+        req_ev = [e for e in tr if e[0] != "reqpoll" and agent_field_of(prog, e[1]) == "outstanding_requests"]
+        other_ev = [e for e in tr if e[0] != "reqpoll" and e not in req_ev]
+        ids = {}
+        for e in polls:
+            t = e[4]
+            if isinstance(t, Struct) and isinstance(t.get(0), Num):
+                ids["K[%r]" % (st.sys.reduce(t.get(0).e),)] = t
+        # invariant of the map (established by send, kept by handle_stun): a request is stored under its own transaction id,
+        # so a request the iteration yielded is found under that id
+        if any(e[0] == "lookup" and e[2] in ids and e[3] is False for e in req_ev):
+            skipped += 1
+            continue
+        n += 1
+        out = variant_of(prog, ret)
+        outcomes.add(out)
+        payload = ret.v[next(iter(ret.v))].get(0) if isinstance(ret, Enum) and len(ret.v) == 1 and ret.v[next(iter(ret.v))].f else None
+        mutated = [e for e in req_ev if e[0] not in ("lookup", "iterate")]
+        last = polls[-1] if polls else None
+        problems = []
+        decisive = [e for e in polls if e[1] != "WaitUntil"]
+        if out in ("TransactionTimedOut", "TransactionCancelled"):
+            want = "TimedOut" if out == "TransactionTimedOut" else "Cancelled"
+            if not decisive or decisive[0][1] != want:
+                problems.append("%s is reported although the first decisive per-request outcome is %s" % (out, decisive[0][1] if decisive else "none"))
+            else:
+                t = decisive[0][4]
+                if not (isinstance(payload, Struct) and isinstance(t, Struct) and same_value(st, payload, t)):
+                    problems.append("the id reported (%r) is not that request's (%r)" % (payload, t))
+                kr = "K[%r]" % (st.sys.reduce(t.get(0).e),) if isinstance(t, Struct) and isinstance(t.get(0), Num) else None
+                if [(e[0], e[2], e[3]) for e in mutated] != [("remove", kr, True)]:
+                    problems.append("the map is not changed by exactly one removal of that request: %r" % ([e[:4] for e in mutated],))
+        elif out == "SendData":
+            if not decisive or decisive[0][1] != "SendData":
+                problems.append("SendData is returned although the first decisive per-request outcome is %s" % (decisive[0][1] if decisive else "none"))
+            else:
+                tx = decisive[0][3]
+                if not (isinstance(payload, Struct) and isinstance(tx, Struct) and same_value(st, payload, tx)):
+                    problems.append("the Transmit returned (%r) is not the one the request produced (%r)" % (payload, tx))
+            if mutated:
+                problems.append("a transmission changes the transaction map: %r" % ([e[:4] for e in mutated],))
+        elif out == "WaitUntil":
+            if decisive:
+                problems.append("WaitUntil is answered although a request reported %s" % decisive[0][1])
+            waits = [e[3] for e in polls if e[1] == "WaitUntil"]
+            if waits and not any(same_value(st, payload, w) for w in waits):
+                problems.append("the instant %r is not a wake-up reported by a request (%r)" % (payload, waits))
+            elif len(waits) >= 2:
+                # the earliest: the decisions taken on this path must entail payload <= every reported wake-up
+                n_min += 1
+                for w in waits:
+                    if not instant_le(st, r.pc(st), payload, w):
+                        problems.append("the instant answered is not shown to be the earliest: nothing on this path orders it before %r" % (w,))
+            if mutated:
+                problems.append("waiting changes the transaction map: %r" % ([e[:4] for e in mutated],))
+        else:
+            problems.append("unknown outcome")
+        if len(decisive) > 1:
+            problems.append("requests are polled after a decisive outcome: %r" % ([e[1] for e in polls],))
+        if other_ev:
+            problems.append("touches other containers: %r" % ([e[:3] for e in other_ev],))
+        changed = [f for f in s0.names if f not in ("outstanding_requests",) and not unchanged(st, s0[f], s1[f])]
+        if changed:
+            problems.append("changes agent fields %s" % changed)
+        chk.ob(rule, "%s|%s|after %s" % (out, mode.split(" (")[0], ",".join(e[1] for e in polls) or "no request"), not problems, body.loc(), detail="; ".join(sorted(set(problems))),
+               how="E2 return state: per-request outcomes in order, net map effect, returned value")
+    chk.floor(rule + "-rows", n, 30)
+    chk.floor(rule + "-two-wake-up-rows", n_min, 2)
+    chk.ob(rule, "all four outcomes are produced", outcomes >= {"TransactionTimedOut", "TransactionCancelled", "SendData", "WaitUntil"}, body.loc(), detail=repr(outcomes))
+    chk.note("agent-poll: %d return states are unreachable under the map invariant key = state.transaction_id and were skipped" % skipped) if hasattr(chk, "note") else None
+
+
+# ------------------------------------------------------------------------------------------------
+# the request handles: cancel, cancel_retransmissions, configure_timeout, peer_address, lookups
+
+RMUT = A + "StunRequestMut::<'a>::"
+RREF = A + "StunRequest::<'a>::"
+
+
+def slot_of(st):
+    """(key, entry value, current value) of the map slot a path looked at (None when it looked at none)"""
+    for c_, v in st.cells.items():
+        if c_.startswith("ghost:slot0:"):
+            rest = c_[len("ghost:slot0:"):]
+            ref = st.cells.get("ghost:slotcell:" + rest)
+            cur = st.cells.get(ref.cell) if isinstance(ref, Ref) else None
+            return rest.rsplit(":", 1)[1], v, cur
+    return None
+
+
+def handle_fn(prog, chk, rule, key, writes, result=None):
+    """one handle method: which key it looks up, what it changes in the request found, what it returns.
+    writes: {field: required final value (True/False/'any'/callable(st, slot0, value) -> problem or None)}"""
+    body = prog.bodies.get(key)
+    short = key.rsplit("::", 1)[-1]
+    if body is None:
+        chk.fail(rule, short + "|missing", detail="no body " + key)
+        return
+    r = Run(prog, key)
+    if r.error or not r.results:
+        chk.fail(rule, short + "|analysis", detail=r.error or "no return state")
+        return
+    seen = set()
+    for st, ret in r.results:
+        tr = r.trace(st)
+        me = Fields(prog, key.rsplit("::", 1)[0].replace("::<'a>", ""), r.self_before(st))
+        tid = me["transaction_id"]
+        want_key = "K[%r]" % (st.sys.reduce(tid.get(0).e),) if isinstance(tid, Struct) and isinstance(tid.get(0), Num) else None
+        req_ev = [e for e in tr if str(e[1]).endswith(".%d" % field_index(prog, AGENT, "outstanding_requests"))]
+        other = [e for e in tr if e not in req_ev]
+        P = next((e[3] for e in req_ev if e[0] == "lookup"), None)
+        seen.add(P)
+        problems = []
+        if [e for e in req_ev if e[0] not in ("lookup",)]:
+            problems.append("changes the transaction map itself: %r" % ([e[:3] for e in req_ev],))
+        if any(e[2] != want_key for e in req_ev):
+            problems.append("looks at key %r, not the handle's transaction id %s" % ([e[2] for e in req_ev], want_key))
+        if other:
+            problems.append("touches other containers: %r" % ([e[:3] for e in other],))
+        sl = slot_of(st)
+        if P is True and sl is not None:
+            s0, s1 = Fields(prog, REQ, sl[1]), Fields(prog, REQ, sl[2])
+            for f in s0.names:
+                if f in writes:
+                    w = writes[f]
+                    if w in (True, False):
+                        if bool_of(st, s1[f]) is not w:
+                            problems.append("%s is %r, not %s" % (f, s1[f], w))
+                    elif callable(w):
+                        pr = w(st, s0, s1[f])
+                        if pr:
+                            problems.append(pr)
+                elif not unchanged(st, s0[f], s1[f]):
+                    problems.append("%s is changed (%r -> %r)" % (f, s0[f], s1[f]))
+            if result is not None:
+                pr = result(st, s0, ret)
+                if pr:
+                    problems.append(pr)
+        elif P is True and (writes or result):
+            problems.append("the request found is not accessed")
+        chk.ob(rule, "%s|%s" % (short, {True: "outstanding", False: "not outstanding", None: "no lookup"}[P]), not problems, body.loc(),
+               detail="; ".join(problems), how="E2 return state: slot of the transaction map before/after")
+    return seen
+
+
+def handles(prog, chk, rule="request-handles", which=("cancel", "cancel_retransmissions", "configure_timeout", "peer_address")):
+    if "cancel" in which:
+        seen = handle_fn(prog, chk, rule, RMUT + "cancel", {"send_cancelled": True, "recv_cancelled": True})
+        chk.ob(rule, "cancel|both cases analysed", seen == {True, False}, detail=repr(seen))
+    if "cancel_retransmissions" in which:
+        seen = handle_fn(prog, chk, rule, RMUT + "cancel_retransmissions", {"send_cancelled": True})
+        chk.ob(rule, "cancel_retransmissions|both cases analysed", seen == {True, False}, detail=repr(seen))
+    if "configure_timeout" in which:
+        def tcp_empty(st, s0, v):
+            tr = s0["transport"]
+            if isinstance(tr, Enum) and len(tr.v) == 1 and prog.adts[tr.adt]["variants"][next(iter(tr.v))]["name"] == "Tcp":
+                if not (isinstance(v, Seq) and st.sys.const_value(v.len) == 0):
+                    return "a TCP request gets retransmission intervals (%r)" % (v,)
+            return None
+        seen = handle_fn(prog, chk, rule, RMUT + "configure_timeout", {"timeouts_ms": tcp_empty, "last_retransmit_timeout_ms": "any"})
+        chk.ob(rule, "configure_timeout|both cases analysed", seen == {True, False}, detail=repr(seen))
+    if "peer_address" in which:
+        def is_to(st, s0, ret):
+            return None if same_value(st, ret, s0["to"]) else "returns %r, not the request's destination %r" % (ret, s0["to"])
+        for k_ in (RMUT + "peer_address", RREF + "peer_address"):
+            handle_fn(prog, chk, rule, k_, {}, result=is_to)
+
+
+def membership(prog, chk, rule, key, container, argname, some=None):
+    """a query method: answers exactly whether `argname` is in `container`, changing nothing"""
+    body = prog.bodies.get(key)
+    short = key.rsplit("::", 1)[-1]
+    if body is None:
+        chk.fail(rule, short + "|missing", detail="no body " + key)
+        return
+    arg = {body.locals[i]["name"]: i for i in range(1, body.arg_count + 1)}
+    r = Run(prog, key)
+    if r.error or not r.results:
+        chk.fail(rule, short + "|analysis", detail=r.error or "no return state")
+        return
+    seen = set()
+    for st, ret in r.results:
+        tr = r.trace(st)
+        av = st.cells.get(r.it.cell_of(r.fr, arg[argname]))
+        want_key = "K[%r]" % (st.sys.reduce(av.get(0).e),) if isinstance(av, Struct) and isinstance(av.get(0), Num) else "K[%r]" % (av,)
+        ci = field_index(prog, AGENT, container)
+        ev = [e for e in tr if str(e[1]).endswith(".%d" % ci)]
+        P = next((e[3] for e in ev if e[0] == "lookup"), None)
+        seen.add(P)
+        problems = []
+        if [e for e in tr if e[0] != "lookup"]:
+            problems.append("changes a container: %r" % ([e[:3] for e in tr if e[0] != "lookup"],))
+        if [e for e in tr if e not in ev] or any(e[2] != want_key for e in ev):
+            problems.append("consults %r, not %s of %s" % ([e[1:3] for e in tr], want_key, container))
+        ans = bool_of(st, ret)
+        if ans is None and isinstance(ret, Enum):
+            ans = {"Some": True, "None": False}.get(variant_of(prog, ret))
+        if P is None or ans is not P:
+            problems.append("answers %r where membership is %r" % (ret, P))
+        if some is not None and P is True and ans is True:
+            pr = some(st, r, ret, av)
+            if pr:
+                problems.append(pr)
+        s0, s1 = r.self_before(st), r.self_now(st)
+        if isinstance(s0, Struct) and not unchanged(st, s0, s1):
+            problems.append("changes the agent")
+        chk.ob(rule, "%s|%s" % (short, {True: "member", False: "not member", None: "no lookup"}[P]), not problems, body.loc(), detail="; ".join(problems),
+               how="E2 return state: the one membership question asked and the answer returned")
+    chk.ob(rule, "%s|both answers analysed" % short, seen == {True, False}, body.loc(), detail=repr(seen))
+
+
+def handle_lookups(prog, chk, rule="request-lookup"):
+    def handle_for(st, r, ret, av):
+        h = ret.v[1].get(0) if isinstance(ret, Enum) and 1 in ret.v else None
+        if not isinstance(h, Struct):
+            return "no handle returned"
+        ag, tid = h.get(0), h.get(1)
+        if not (isinstance(ag, Ref) and ag.cell == r.self_cell and not ag.path):
+            return "the handle's agent %r is not this agent" % (ag,)
+        if not same_value(st, tid, av):
+            return "the handle's transaction id %r is not the one asked for %r" % (tid, av)
+        return None
+    membership(prog, chk, rule, AGENT + "::request_transaction", "outstanding_requests", "transaction_id", some=handle_for)
+    membership(prog, chk, rule, AGENT + "::mut_request_transaction", "outstanding_requests", "transaction_id", some=handle_for)
+
+
+# ------------------------------------------------------------------------------------------------
+# plain transmissions: StunAgent::send_data and Transmit::into_owned
+
+def data_bytes(d):
+    """the byte sequence inside a Data / DataSlice / DataOwned value"""
+    n = 0
+    while n < 6:
+        if isinstance(d, Enum) and len(d.v) == 1:
+            d = d.v[next(iter(d.v))]
+        elif isinstance(d, Struct) and len(d.f) == 1:
+            d = next(iter(d.f.values()))
+        else:
+            break
+        n += 1
+    return d
+
+
+def plain_transmit(prog, chk, rule="provenance"):
+    key = AGENT + "::send_data"
+    body = prog.bodies[key]
+    arg = {body.locals[i]["name"]: i for i in range(1, body.arg_count + 1)}
+    n = 0
+    for tv in ("Udp", "Tcp"):
+        def setup(run, st, tv=tv):
+            pin_variant(prog, st, run.self_cell, AGENT, "transport", tv)
+            st.cells["ghost:self0"] = st.cells[run.self_cell]
+            bc = run.it.cell_of(run.fr, arg["bytes"])
+            bv = st.cells.get(bc)
+            if isinstance(bv, Seq):
+                st.cells[bc] = Seq(bv.len, bv.elem, bv.items, ("bytes", Lin.const(0)), None)
+        r = Run(prog, key, setup=setup)
+        if r.error or not r.results:
+            chk.fail(rule, "StunAgent::send_data|analysis", detail=r.error or "no return state")
+            return
+        for st, ret in r.results:
+            n += 1
+            s0 = Fields(prog, AGENT, r.self_before(st))
+            t = Fields(prog, A + "Transmit", ret)
+            d = data_bytes(t["data"])
+            bv = st.cells.get(r.it.cell_of(r.fr, arg["bytes"]))
+            to = st.cells.get(r.it.cell_of(r.fr, arg["to"]))
+            problems = []
+            if not (isinstance(d, Seq) and isinstance(bv, Seq) and d.content() == ("bytes", Lin.const(0)) and st.sys.entails_eq(d.len - bv.len)):
+                problems.append("data %r is not the bytes given %r" % (d, bv))
+            if not same_value(st, t["transport"], s0["transport"]):
+                problems.append("transport %r is not the agent's" % (t["transport"],))
+            if not same_value(st, t["from"], s0["local_addr"]):
+                problems.append("from %r is not the agent's local address" % (t["from"],))
+            if not same_value(st, t["to"], to):
+                problems.append("to %r is not the destination given" % (t["to"],))
+            if r.trace(st):
+                problems.append("touches a container: %r" % ([e[:3] for e in r.trace(st)],))
+            chk.ob(rule, "StunAgent::send_data|%s" % tv, not problems, body.loc(), detail="; ".join(problems), how="E2 return state")
+    chk.floor(rule + "-send_data-states", n, 2)
+    # Transmit::into_owned keeps every field, for borrowed and owned data alike
+    key = A + "Transmit::<'a>::into_owned"
+    body = prog.bodies[key]
+    n = 0
+    for tv in ("Udp", "Tcp"):
+        def setup2(run, st, tv=tv):
+            c1 = run.it.cell_of(run.fr, 1)
+            tx = st.cells.get(c1)
+            i = field_index(prog, A + "Transmit", "transport")
+            if isinstance(tx, Struct) and isinstance(tx.get(i), Enum):
+                a = prog.adts[tx.get(i).adt]
+                tx = tx.with_field(i, tx.get(i).only([v["name"] for v in a["variants"]].index(tv)))
+            j = field_index(prog, A + "Transmit", "data")
+            d = tx.get(j) if isinstance(tx, Struct) else None
+            if isinstance(d, Enum):
+                # both representations carry the same identified content
+                vs = {}
+                shared = None
+                for k_, pl in d.v.items():
+                    q = pl
+                    path = []
+                    while isinstance(q, Struct) and len(q.f) == 1:
+                        path.append(next(iter(q.f)))
+                        q = q.f[path[-1]]
+                    if isinstance(q, Seq):
+                        shared = shared or q.len          # one payload, whichever representation holds it
+                        q = Seq(shared, q.elem, q.items, None, ("payload", Lin.const(0)))
+                        for p_ in reversed(path):
+                            q = Struct({p_: q})
+                        vs[k_] = q
+                    else:
+                        vs[k_] = pl
+                tx = tx.with_field(j, Enum(d.adt, vs))
+            st.cells[c1] = tx
+            st.cells["ghost:arg0"] = tx
+        r = Run(prog, key, setup=setup2)
+        if r.error or not r.results:
+            chk.fail(rule, "Transmit::into_owned|analysis", detail=r.error or "no return state")
+            return
+        for st, ret in r.results:
+            n += 1
+            t0 = Fields(prog, A + "Transmit", st.cells.get("ghost:arg0"))
+            t1 = Fields(prog, A + "Transmit", ret)
+            d = data_bytes(t1["data"])
+            problems = []
+            if not (isinstance(d, Seq) and d.content() == ("payload", Lin.const(0))):
+                problems.append("data %r is not the payload it was given" % (d,))
+            else:
+                d0 = t0["data"]
+                lens = [data_bytes(Enum(d0.adt, {k_: pl})) for k_, pl in d0.v.items()] if isinstance(d0, Enum) else []
+                if not any(isinstance(x, Seq) and st.sys.entails_eq(x.len - d.len) for x in lens):
+                    problems.append("length of the data changes")
+            if isinstance(t1["data"], Enum) and variant_of(prog, t1["data"]) != "Owned":
+                problems.append("the result is not owned")
+            for f in ("transport", "from", "to"):
+                if not same_value(st, t0[f], t1[f]):
+                    problems.append("%s changes (%r -> %r)" % (f, t0[f], t1[f]))
+            chk.ob(rule, "Transmit::into_owned|%s" % tv, not problems, body.loc(), detail="; ".join(problems), how="E2 return state")
+    chk.floor(rule + "-into_owned-states", n, 2)
+
+
+# ------------------------------------------------------------------------------------------------
+# who may touch a field: by function and by kind of access (read / write); what each writer does with it is decided
+# by that function's table above, not by the shape of the access
+
+READ_HOWS = {"ref", "copy", "discr", "len"}
+
+
+def touchers(prog, chk, rule, adt_variant, field, readers, writers, floor):
+    from e1 import field_accesses
+    accs = field_accesses(prog, adt_variant, field)
+    seen = {}
+    for a in accs:
+        fn = re.sub(r"::\{closure#\d+\}", "", a["body"])
+        kind = "read" if a["how"] in READ_HOWS else "write"
+        seen.setdefault((fn, kind), a)
+    for (fn, kind), a in sorted(seen.items()):
+        if re.match(r"^<.* as std::fmt::Debug>::fmt$", fn) and kind == "read":
+            ok = True
+        elif kind == "read":
+            ok = any(re.search(p, fn) for p in list(readers) + list(writers))
+        else:
+            ok = any(re.search(p, fn) for p in writers)
+        chk.ob(rule, "%s.%s|%s|%s" % (adt_variant.split("::")[-2] if adt_variant.count("::") > 2 else adt_variant, field, fn.split("::", 2)[-1], kind), ok, a["where"],
+               detail="%s of %s in %s: this function is not among the field's %s" % (kind, field, fn, "writers" if kind == "write" else "readers"),
+               how="every place projecting through the field, by enclosing function")
+    chk.floor(rule + "-%s-sites" % field, len(accs), floor)
+    return accs
